@@ -333,15 +333,18 @@ Definition enc_serial (r : f_serial) : p_sub :=
                    (r_name r) (r_rated r) (r_speed r) (r_uid r)) (r_stages r) 1.
 
 (* collect_electric_components_from_sub_system: present fields in a fixed order, then a stable sort by order *)
+(* every stage is a component of its own: a non-positive rated power is rejected by its constructor *)
 Definition dec_stage_e (k : stage_kind) (c : p_ecomp) : option (nat * f_stage) :=
   match dec_eff (pc_eff c) with
-  | Some e => Some (pc_order c, {| g_kind := k; g_name := pc_name c; g_rated := pc_rated c; g_speed := 0; g_eff := e;
+  | Some e => if Qle_bool (pc_rated c) 0 then None else
+              Some (pc_order c, {| g_kind := k; g_name := pc_name c; g_rated := pc_rated c; g_speed := 0; g_eff := e;
                                    g_uid := dec_uid (pc_uid c) |})
   | None => None
   end.
 Definition dec_stage_m (m : p_machine) : option (nat * f_stage) :=
   match dec_eff (pm_eff m) with
-  | Some e => Some (pm_order m, {| g_kind := KMachine; g_name := pm_name m; g_rated := pm_rated m; g_speed := pm_speed m;
+  | Some e => if Qle_bool (pm_rated m) 0 then None else
+              Some (pm_order m, {| g_kind := KMachine; g_name := pm_name m; g_rated := pm_rated m; g_speed := pm_speed m;
                                    g_eff := e; g_uid := dec_uid (pm_uid m) |})
   | None => None
   end.
@@ -487,7 +490,8 @@ Definition dec_comp (s : p_sub) : option f_comp :=
   else if (ct =? T_GENSET)%nat then
     match dec_engine (get engine0 (s_engine s)), dec_mach (get machine0 (s_machine s)) with
     | Some eng, Some gen =>
-        if positive (e_rated eng) && positive (h_rated gen)
+        (* the generator's rating is checked by its constructor; an engine's is not (known finding F-C20-1) *)
+        if positive (h_rated gen)
         then match s_conv1 s with
              | None => Some (CGenset (s_name s) (dec_uid (s_uid s)) eng gen)
              | Some _ => None       (* a rectifier in the description: folded into the generator, outside this model *)
@@ -608,14 +612,14 @@ Definition dec_line_comp (line : nat) (ptis : option (list f_serial)) (s : p_sub
   else if (ct =? T_MAIN_ENGINE)%nat then
     let g := get engine0 (s_engine s) in
     match dec_engine (if String.eqb (pg_name g) "" then name_engine g (s_name s) else g) with
-    | Some eng => if positive (e_rated eng) then Some (MEngine (s_name s) (dec_uid (s_uid s)) eng) else None
+    | Some eng => Some (MEngine (s_name s) (dec_uid (s_uid s)) eng)
     | None => None
     end
   else if (ct =? T_MAIN_ENGINE_GB)%nat then
     let gr := get gear0 (s_gear s) in
     match dec_engine (get engine0 (s_engine s)), dec_eff (pr_eff gr) with
     | Some eng, Some ge =>
-        if positive (e_rated eng) && positive (pr_rated gr)
+        if positive (pr_rated gr)
         then Some (MEngineGB (s_name s) (dec_uid (s_uid s)) eng
                      {| h_name := pr_name gr; h_rated := pr_rated gr; h_speed := pr_speed gr; h_eff := ge;
                         h_uid := dec_uid (pr_uid gr) |})
